@@ -607,11 +607,11 @@ PCL = 'Pistache_Http_Private_BodyStep_parseContentLength'
 PTE = 'Pistache_Http_Private_BodyStep_parseTransferEncoding'
 MUC, MUIL = 'Pistache_match_until_c', 'Pistache_match_until_il'
 PROOFS = [
-    {'name': 'RequestLineStep_apply', 'enforce': 'Pistache_Http_Private_RequestLineStep_apply', 'replace': [ADV, MUC, MUIL], 'loops': 'contracts',
+    {'name': 'RequestLineStep_apply', 'quick_props': ['C01', 'C03'], 'enforce': 'Pistache_Http_Private_RequestLineStep_apply', 'replace': [ADV, MUC, MUIL], 'loops': 'contracts',
      'props': ['C01', 'C03'], 'cost': 90, 'timeout': 3600},
     {'name': 'ResponseLineStep_apply', 'enforce': 'Pistache_Http_Private_ResponseLineStep_apply', 'replace': [ADV, MUC, 'Pistache_match_raw'], 'loops': 'contracts',
      'props': ['C01', 'C03'], 'cost': 30, 'timeout': 3600},
-    {'name': 'HeadersStep_apply', 'enforce': 'Pistache_Http_Private_HeadersStep_apply', 'replace': [ADV], 'loops': 'contracts',
+    {'name': 'HeadersStep_apply', 'quick_props': ['C01'], 'enforce': 'Pistache_Http_Private_HeadersStep_apply', 'replace': [ADV], 'loops': 'contracts',
      'props': ['C01', 'C03'], 'cost': 100, 'timeout': 3600},
     # the same function once more with the header-line grammar assertions switched on (they triple the solver time -- about 8 minutes -- so the proof is in the
     # thorough tier only and kept out of the runs for C01 / C03): every raw copy is name ":" SP* value CRLF of its line, the typed parser sees the same value bytes
@@ -622,7 +622,7 @@ PROOFS = [
      'complete': 'range-for over std::array<unique_ptr<Step>, 3>: exactly three iterations; unwinding assertions hold'},
     {'name': 'ParserBase_feed', 'enforce': 'Pistache_Http_Private_ParserBase_feed', 'replace': ['Pistache_ArrayStreamBuf_feed'], 'props': ['C14', 'C03']},
     {'name': 'ParserImpl_reset', 'enforce': 'Pistache_Http_Private_ParserImpl_reset', 'replace': ['Pistache_Http_Private_ParserBase_reset'], 'props': ['C04', 'C14']},
-    {'name': 'ParserBase_parse', 'enforce': 'Pistache_Http_Private_ParserBase_parse', 'loops': 'contracts', 'props': ['C01', 'C03'], 'cost': 40,
+    {'name': 'ParserBase_parse', 'quick_props': ['C01'], 'enforce': 'Pistache_Http_Private_ParserBase_parse', 'loops': 'contracts', 'props': ['C01', 'C03'], 'cost': 40,
      'replace': ['Pistache_Http_Private_BodyStep_apply', 'Pistache_Http_Private_HeadersStep_apply', 'Pistache_Http_Private_RequestLineStep_apply']},
     {'name': 'onInput', 'enforce': 'Pistache_Http_Handler_onInput', 'props': ['C03', 'C04', 'C14'], 'cost': 20,
      'replace': ['Pistache_ArrayStreamBuf_feed', 'Pistache_Http_Private_ParserBase_parse', 'Pistache_Http_Private_ParserImpl_reset']},
